@@ -927,6 +927,9 @@ func judgeClient(ctx *core.Ctx, c *Case, o *Obs) {
 		judgeHost(ctx, c)
 		// the histogram keeps the class, not the single host
 		ctx.Count("client/" + c.Via + "/host")
+	} else if strings.HasPrefix(c.What, "field/") {
+		judgeField(ctx, c, o)
+		ctx.Count("client/" + c.Via + "/field")
 	} else {
 		ctx.Count("client/" + c.Via + "/" + c.What)
 	}
